@@ -935,6 +935,8 @@ class SolverWrapper:
         Ls = [r[0] for r in ranges]
         Us = [r[1] for r in ranges]
         M = (max(Us) - min(Ls)) * 2
+        # Big-M for the y rows: a non-selected piece i must still admit y = constants[j] of the selected piece j
+        M_y = max(constants) - min(constants)
 
         # Create binary variables z[i] for each piece.
         z = self.add_variables(
@@ -956,8 +958,8 @@ class SolverWrapper:
             # Link x with the range [L, U] if piece i is active.
             self.add_constraint(x >= L - M * (1 - z[i]), name=f"{name_prefix}_L_{i}")
             self.add_constraint(x <= U + M * (1 - z[i]), name=f"{name_prefix}_U_{i}")
-            self.add_constraint(y <= c + M * (1 - z[i]), name=f"{name_prefix}_yU_{i}")
-            self.add_constraint(y >= c - M * (1 - z[i]), name=f"{name_prefix}_yL_{i}")
+            self.add_constraint(y <= c + M_y * (1 - z[i]), name=f"{name_prefix}_yU_{i}")
+            self.add_constraint(y >= c - M_y * (1 - z[i]), name=f"{name_prefix}_yL_{i}")
 
     def _timeout_handler(self, signum, frame):
         """Internal: mark *custom* timeout occurrence.
